@@ -137,6 +137,7 @@ const (
 	aStop
 	aNotify
 	aCallback
+	aBaseCancel // the base context supplied through ServerOptions.NewContext ends
 )
 
 type action struct {
@@ -230,6 +231,9 @@ type srvWorld struct {
 	qpoints   []int // sequence numbers of the quiescent points seen so far
 	status    *jrpc2.ServerStatus
 	observers []*statusObs // further WaitStatus / Wait callers (C08)
+	baseCtx       context.Context // base context handed to the server (nil: the default)
+	baseCancel    func()
+	baseCancelSeq int
 	waitSeq   int
 }
 
@@ -267,6 +271,7 @@ type srvCfg struct {
 	PostStop     bool    // keep sending records after the stop
 	FoldReplies  bool    // the peer may put a callback reply and its next requests into one array
 	DupIDs       bool    // now and then a call of a batch reuses the id of a call of an earlier message
+	BaseCtx      bool    // sometimes the server gets a base context (NewContext) that the workload ends
 }
 
 func (w *srvWorld) seq() int { return len(w.r.Sim.Events) }
@@ -579,6 +584,15 @@ func (w *srvWorld) generate() {
 			a.Delay = g.Int("actdelay", 30)
 		}
 		w.acts = append(w.acts, a)
+	}
+	if w.cfg.BaseCtx && g.Chance("basectx", 0.35) {
+		w.baseCtx, w.baseCancel = context.WithCancel(context.Background())
+		if g.Chance("basecancel", 0.6) {
+			a := &action{Kind: aBaseCancel, Invoke: -1, Return: -1, CancelSeq: -1}
+			a.Gate = g.Chance("actgate", 0.6)
+			a.Delay = g.Int("actdelay", 40)
+			w.acts = append(w.acts, a)
+		}
 	}
 	ns := 0
 	if w.cfg.Stops > 0 {
@@ -919,6 +933,14 @@ func (w *srvWorld) perform(ctx context.Context, a *action) {
 		w.r.Ev("stop.return", "", 0, 0, "")
 	case aNotify, aCallback:
 		w.doPushAct(ctx, a)
+	case aBaseCancel:
+		a.Invoke = w.seq()
+		if w.baseCancelSeq < 0 {
+			w.baseCancelSeq = a.Invoke
+		}
+		w.r.Ev("basectx.cancel", "", 0, 0, "")
+		w.baseCancel()
+		a.Return = w.seq()
 	}
 	a.Done = true
 }
@@ -1057,6 +1079,9 @@ func (w *srvWorld) setup() {
 func (w *srvWorld) start() {
 	r := w.r
 	opts := &jrpc2.ServerOptions{Concurrency: w.optK, AllowPush: w.push, RPCLog: w}
+	if w.baseCtx != nil {
+		opts.NewContext = func() context.Context { return w.baseCtx }
+	}
 	if r.Gen.Chance("srvlogger", 0.3) {
 		// a debug logger: every log call is one more point at which the
 		// scheduler may switch, also inside the server's critical sections
